@@ -14,9 +14,14 @@ func prelude() string {
 	b.WriteString("(declare-sort Str 0)\n(declare-sort Ref 0)\n")
 	b.WriteString("(declare-fun str_empty () Str)\n(declare-fun ref_nil () Ref)\n")
 	b.WriteString("(declare-fun strlen (Str) Int)\n(assert (= (strlen str_empty) 0))\n")
-	b.WriteString("(assert (forall ((s Str)) (! (>= (strlen s) 0) :pattern ((strlen s)))))\n")
+	b.WriteString("(assert (forall ((s Str)) (! (and (>= (strlen s) 0) (<= (strlen s) 281474976710656)) :pattern ((strlen s)))))\n")
 	b.WriteString("(assert (forall ((s Str)) (! (=> (= (strlen s) 0) (= s str_empty)) :pattern ((strlen s)))))\n")
 	b.WriteString("(declare-fun str_lt (Str Str) Bool)\n")
+	// Go's string comparison is a strict total order
+	b.WriteString("(assert (forall ((a Str)) (! (not (str_lt a a)) :pattern ((str_lt a a)))))\n")
+	b.WriteString("(assert (forall ((a Str) (b Str)) (! (=> (str_lt a b) (not (str_lt b a))) :pattern ((str_lt a b)))))\n")
+	b.WriteString("(assert (forall ((a Str) (b Str)) (! (or (= a b) (str_lt a b) (str_lt b a)) :pattern ((str_lt a b)))))\n")
+	b.WriteString("(assert (forall ((a Str) (b Str) (c Str)) (! (=> (and (str_lt a b) (str_lt b c)) (str_lt a c)) :pattern ((str_lt a b) (str_lt b c)))))\n")
 	b.WriteString("(declare-fun str_at (Str Int) Int)\n")
 	b.WriteString("(declare-fun str_cat (Str Str) Str)\n")
 	b.WriteString("(assert (forall ((a Str) (b Str)) (! (= (strlen (str_cat a b)) (+ (strlen a) (strlen b))) :pattern ((str_cat a b)))))\n")
